@@ -62,6 +62,11 @@ def run(b, tier, seed, findings, known_seen):
     for ch in ("\r", " ", "\t"):
         for pos in range(60, 76):
             strings.append("\u00e9" * (pos // 2) + ch + "\u4f1a" * 40 + ch + "z")
+    # "for every Unicode string": each control character (C0 except LF / CR, DEL, C1), separators, BOM, NBSP, a non-BMP character - alone,
+    # inside a word and next to the escape characters
+    for cp in list(range(0, 10)) + [11, 12] + list(range(14, 32)) + [0x7f, 0x80, 0x85, 0x9f, 0xa0, 0x2028, 0x2029, 0xfeff, 0xfffd, 0x1f600, 0x10ffff]:
+        ch = chr(cp)
+        strings += [ch, "Agenda" + ch + "Item 1", ch + "x", "x" + ch, "a," + ch + ";b", "\\" + ch]
     ps = paths()
     fails = {}
     cases = 0
